@@ -89,6 +89,15 @@ where
         self.roadmap.clone()
     }
 
+    /// Snapshot of the roadmap: (state, adjacency list) per milestone.
+    #[cfg(oxmpl_verif)]
+    pub fn verif_roadmap(&self) -> Vec<(S, Vec<usize>)> {
+        self.roadmap
+            .iter()
+            .map(|n| (n.state.clone(), n.edges.clone()))
+            .collect()
+    }
+
     /// Update ProblemDefinition. This is so that you can use an already sampled roadmap but just
     /// change the start and goal states.
     pub fn set_problem_definition(&mut self, pd: Arc<ProblemDefinition<S, SP, G>>) {
@@ -100,6 +109,8 @@ where
     /// This method populates the roadmap by sampling states and connecting them until the
     /// specified timeout is reached.
     pub fn construct_roadmap(&mut self) -> Result<(), PlanningError> {
+        #[cfg(oxmpl_verif)]
+        use crate::verif::Instant;
         let pd = self
             .problem_def
             .as_ref()
@@ -234,6 +245,8 @@ where
     }
 
     fn solve(&mut self, timeout: Duration) -> Result<Path<S>, PlanningError> {
+        #[cfg(oxmpl_verif)]
+        use crate::verif::Instant;
         // Ensure setup has been called.
         let pd = self
             .problem_def
